@@ -171,6 +171,63 @@ fn aead_id(esk: &SymKeyEncryptedSessionKey) -> u8 {
     v[3]
 }
 
+/// secret-key locking with S2K usage 253 (RFC 9580 3.7.2.1 / 5.5.3): KEK = HKDF-SHA256(S2K key, info = packet type octet,
+/// key version, cipher, AEAD mode), AEAD over the secret material with the packet type octet and the public fields as
+/// associated data. Keys of both versions, primary and subkey packets.
+fn keylock(cx: &mut Ctx, thorough: bool) {
+    use pgp::packet::{Packet, PacketParser};
+    use pgp::ser::Serialize;
+    use pgp::types::{KeyDetails, KeyVersion, S2kParams, SecretParams};
+    let spec_of = |s2k: &StringToKey| -> Option<String> { Some(match s2k {
+        StringToKey::Simple { hash_alg } => format!("0:{}:-:0", u8::from(*hash_alg)),
+        StringToKey::Salted { hash_alg, salt } => format!("1:{}:{}:0", u8::from(*hash_alg), hx(salt)),
+        StringToKey::IteratedAndSalted { hash_alg, salt, count } => format!("3:{}:{}:{}", u8::from(*hash_alg), hx(salt), count),
+        StringToKey::Argon2 { salt, t, p, m_enc } => format!("argon:{}:{}:{}:{}", t, p, m_enc, hx(salt)),
+        _ => return None }) };
+    for (ver, seed) in [(KeyVersion::V4, 1210u64), (KeyVersion::V6, 1211)] {
+        let Ok(key) = guarded(|| vh::keys::gen_key_with_subkey(ver, seed)) else { continue; };
+        let syms = if thorough { vec![SymmetricKeyAlgorithm::AES128, SymmetricKeyAlgorithm::AES192, SymmetricKeyAlgorithm::AES256, SymmetricKeyAlgorithm::Camellia128, SymmetricKeyAlgorithm::Twofish] } else { vec![SymmetricKeyAlgorithm::AES128, SymmetricKeyAlgorithm::AES256] };
+        for sym in syms {
+            for aead in [AeadAlgorithm::Eax, AeadAlgorithm::Ocb, AeadAlgorithm::Gcm] {
+                let mut salt16 = [0u8; 16]; salt16.copy_from_slice(&cx.rng.bytes(16));
+                let mut salt8 = [0u8; 8]; salt8.copy_from_slice(&cx.rng.bytes(8));
+                let s2ks = vec![
+                    StringToKey::IteratedAndSalted { hash_alg: HashAlgorithm::Sha256, salt: salt8, count: 40 },
+                    StringToKey::Salted { hash_alg: HashAlgorithm::Sha512, salt: salt8 },
+                    StringToKey::Argon2 { salt: salt16, t: 1, p: 2, m_enc: 10 },
+                ];
+                for s2k in s2ks {
+                    let pwl = cx.rng.range(0, 20) as usize; let pw = cx.rng.bytes(pwl);
+                    let nonce = cx.rng.bytes(aead.nonce_size());
+                    let params = S2kParams::Aead { sym_alg: sym, aead_mode: aead, s2k: s2k.clone(), nonce: nonce.clone().into() };
+                    // (packet type, packet octets of the unlocked key, public part, locked packet octets)
+                    let mut objs: Vec<(u8, Vec<u8>, Vec<u8>, Option<Vec<u8>>)> = Vec::new();
+                    { let mut k = key.primary_key.clone(); let plain = k.to_bytes().unwrap_or_default(); let pubb = k.public_key().to_bytes().unwrap_or_default();
+                      let w = guarded(|| { k.set_password_with_s2k(&Password::from(&pw[..]), params.clone()).ok()?; Packet::from(k.clone()).to_bytes().ok() }).ok().flatten(); objs.push((5, plain, pubb, w)); }
+                    if let Some(sub) = key.secret_subkeys.first() { let mut k = sub.key.clone(); let plain = k.to_bytes().unwrap_or_default(); let pubb = k.public_key().to_bytes().unwrap_or_default();
+                      let w = guarded(|| { k.set_password_with_s2k(&Password::from(&pw[..]), params.clone()).ok()?; Packet::from(k.clone()).to_bytes().ok() }).ok().flatten(); objs.push((7, plain, pubb, w)); }
+                    for (tag, plain, pubb, w) in objs {
+                        let cls = format!("keylock-v{}-tag{}", u8::from(ver), tag);
+                        let Some(w) = w else { cx.out.case("", &[], &["keylock".into(), cls.clone()], "lock refused (the library does not lock with this S2K)", Some(true), &format!("{cls}-refused")); continue; };
+                        // raw secret material: behind the public fields and the usage octet 0; v4 keys carry a 2-octet checksum
+                        if plain.len() < pubb.len() + 1 || plain[pubb.len()] != 0 { continue; }
+                        let end = if ver == KeyVersion::V6 { plain.len() } else { plain.len() - 2 };
+                        let raw = plain[pubb.len() + 1..end].to_vec();
+                        let ct = match PacketParser::new(&w[..]).next() {
+                            Some(Ok(Packet::SecretKey(k))) => match k.secret_params() { SecretParams::Encrypted(e) => Some(e.data().to_vec()), _ => None },
+                            Some(Ok(Packet::SecretSubkey(k))) => match k.secret_params() { SecretParams::Encrypted(e) => Some(e.data().to_vec()), _ => None },
+                            _ => None };
+                        let Some(ct) = ct else { cx.out.case("", &[], &["keylock".into(), hx(&w)], "locked key does not parse back", Some(false), &cls); continue; };
+                        let Some(sp) = spec_of(&s2k) else { continue; };
+                        let args = vec![tag.to_string(), u8::from(ver).to_string(), u8::from(sym).to_string(), u8::from(aead).to_string(), sp, hx(&pw), hx(&nonce), hx(&pubb), hx(&raw)];
+                        cx.out.case("lockaead", &args, &["keylock".into(), hx(&w), hx(&pw)], &hx(&ct), None, &cls);
+                    }
+                }
+            }
+        }
+    }
+}
+
 fn main() {
     quiet_panics();
     let cli = cli();
@@ -256,5 +313,6 @@ fn main() {
             }
         }
     }
+    keylock(&mut cx, thorough);
     cx.out.finish();
 }
